@@ -5,17 +5,14 @@ Require Import PPLV.Watchdog.TimeSpec PPLV.gen.Facts_Time PPLV.Watchdog.Time PPL
 Import ListNotations.
 Open Scope Z_scope.
 
-Lemma StableF_tick run p rm ts lt nw cr us :
-  StableF run p rm ts lt nw cr -> 0 < us -> us < rm -> StableF run p (rm - us) ts lt (nw + us) cr.
+Lemma StableF_env run p rm ts lt nw cr rm' nw' :
+  StableF run p rm ts lt nw cr -> (rm = 0 -> rm' = 0) -> (0 < rm -> 0 < rm') ->
+  Kp nw rm ts lt <= Kp nw' rm' ts lt -> StableF run p rm' ts lt nw' cr.
 Proof.
-  unfold StableF. destruct run; intros H Hus Hr.
-  - destruct H as (A & B & C & D). repeat split; auto; try lia. eapply Forall_due_mono; [|exact D]. lia.
-  - lia.
+  unfold StableF. destruct run; intros H H0 H1 HK.
+  - destruct H as (A & B & C & D). repeat split; auto. eapply Forall_due_mono; [|exact D]. exact HK.
+  - destruct H as [A B]. auto.
 Qed.
-
-Lemma StableF_idle_tick run p ts lt nw cr us :
-  StableF run p 0 ts lt nw cr -> 0 < us -> StableF run p 0 ts lt (nw + us) cr.
-Proof. unfold StableF. destruct run; intros H Hus; [lia | auto]. Qed.
 
 Lemma Cr_mono s s' id d b b' : created s' = created s -> b <= b' -> Cr s id d b -> Cr s' id d b'.
 Proof. unfold Cr. intros E Hb (t0 & A & B). rewrite E. exists t0. split; auto. lia. Qed.
@@ -65,27 +62,29 @@ Section Never.
     - (* A1 *) split; auto. unfold P3, Cr in *; simpl. intuition.
     - (* A2 *) destruct HP as (A & B & C & D & E & F & G).
       rewrite (set_timer_pos d s Hpcok F). split; auto.
-      unfold P3, StableF; simpl. rewrite C. repeat split; auto; try discriminate; try lia.
+      unfold P3, StableF, Kp; simpl. rewrite C. repeat split; auto; try discriminate; try lia.
       + simpl. lia.
       + constructor; [|constructor]. destruct E as (t0 & E1 & E2). exists t0, (to_us d). simpl. split; auto. lia.
     - (* A3 *) split; auto; unfold P3, Stable, StableF, Cr in *; simpl; tauto.
     - (* E0 *) split; auto. destruct HP as (A & B & C & D & E).
-      unfold P3, get_timer, Stable, Cr in *; simpl. rewrite Htvu.
-      unfold StableF in C. rewrite B in C. destruct C as (C1 & C2 & C3 & C4).
-      repeat split; auto; try lia.
-      * unfold StableF. rewrite B. auto.
-      * destruct D as (t0 & D1 & D2). exists t0. split; auto. lia.
+      unfold P3, get_timer, Stable, Cr in *; simpl.
+      pose proof C as C'. unfold StableF in C'. rewrite B in C'. destruct C' as (C1 & C2 & C3 & C4).
+      destruct D as (t0 & D1 & D2).
+      repeat split; auto.
+      exists (Kp (now s) (rem s) (tsf s) (ltr s)), t0. unfold GetF, est; simpl. rewrite Htvu.
+      repeat split; auto; unfold Kp; lia.
     - (* E1 *) split; auto; unfold P3, Stable, StableF, Cr in *; simpl; tauto.
     - (* E2 *) split; auto. destruct Hpcok as (Od & Ot & Oe).
-      destruct HP as (A & B & C & D & E & F & G). subst el.
+      destruct HP as (A & B & C & F & G & (k0 & t0 & D1 & (G1 & G2 & G3) & D2)). subst el. unfold est in *.
       assert (Osub : OKt (tsub (ltr s) tts)) by okt.
       destruct (tsub_ok (ltr s) tts Hltr Ot) as [_ Hs1].
       destruct (tadd_ok (tsf s) (tsub (ltr s) tts) Htsf Osub) as [Ocur Hs2].
       destruct (tadd_ok d _ Od Ocur) as [_ Hs3].
       unfold P3, Stable in *; simpl. repeat split; auto; try lia.
-      destruct D as (t0 & D1 & D2). exists t0, (to_us d). simpl. split; auto. lia.
+      + exists t0, (to_us d). simpl. split; auto. lia.
+      + exists k0. repeat split; auto; try lia. exists t0, (to_us d). simpl. split; auto. lia.
     - (* E3 *) destruct Hpcok as (Od & Ot & Ocu & Ord).
-      destruct HP as (A & B & C & D & E & F & G).
+      destruct HP as (A & B & C & G & E & F & (k0 & K1 & K2 & K3)).
       assert (Hst : Stable (set_pending (insert c rd id (pending s)) s)).
       { unfold Stable, StableF in *; simpl. rewrite B in *. destruct C as (C1 & C2 & C3 & C4).
         refine (conj _ (conj C2 (conj _ _))).
@@ -93,15 +92,16 @@ Section Never.
         - apply (insert_head c Hc); auto.
         - apply insert_Forall; auto. }
       destruct (clt c d tts); (split; [auto|]); unfold P3; simpl; repeat split; auto.
-      rewrite <- E. apply (insert_head_le_new c Hc); auto.
-    - (* E5 *) split; auto. destruct Hpcok as (Od & Ocu). destruct HP as (A & B & C & D & E & F).
+      + rewrite <- E. apply (insert_head_le_new c Hc); auto.
+      + exists k0. split; auto. apply insert_Forall; auto.
+    - (* E5 *) split; auto. destruct Hpcok as (Od & Ocu). destruct HP as (A & B & C & F & E & (k0 & K1 & K2)).
       unfold P3, Stable, StableF in *; simpl. rewrite B in C. destruct C as (C1 & C2 & C3 & C4).
       repeat split; auto.
       + destruct (pending s) as [|[d1 i1] r]; simpl in *; auto. lia.
-      + eapply Forall_due_mono; [|exact C4]. lia.
+      + eapply Forall_due_mono; [|exact K1]. lia.
     - (* E6 *) destruct HP as (A & B & C & D & E & F).
       rewrite (set_timer_pos d s Hpcok F). split; auto.
-      unfold P3, Stable, StableF; simpl. rewrite B. repeat split; auto; try lia.
+      unfold P3, Stable, StableF, Kp; simpl. rewrite B. repeat split; auto; try lia.
       eapply Forall_due_mono; [|exact E]. lia.
     - (* C3 *) split; auto; unfold P3, Stable, StableF, Cr in *; simpl; tauto.
     - (* C4 *) split; auto; unfold P3, Stable, StableF, Cr in *; simpl; tauto.
@@ -138,18 +138,20 @@ Section Never.
           rewrite erase_cons_other by auto. repeat split; auto; try discriminate; try lia.
           inversion B4; subst. constructor; auto. apply Forall_filter; auto.
     - (* R0 *) split; auto. destruct HP as (A & B & C & D & E).
-      unfold P3, get_timer, Stable in *; simpl. rewrite Htvu.
-      unfold StableF in C. rewrite B in C. destruct C as (C1 & C2 & C3 & C4).
-      repeat split; auto; try lia. unfold StableF. rewrite B. auto.
+      unfold P3, get_timer, Stable in *; simpl.
+      pose proof C as C'. unfold StableF in C'. rewrite B in C'. destruct C' as (C1 & C2 & C3 & C4).
+      repeat split; auto.
+      exists (Kp (now s) (rem s) (tsf s) (ltr s)). unfold GetF, est; simpl. rewrite Htvu.
+      repeat split; auto; unfold Kp; lia.
     - (* R1 *) split; auto; unfold P3, Stable, StableF, Cr in *; simpl; tauto.
     - (* R2 *) split; auto. destruct Hpcok as (Ofd & Ond & Ot & Oe).
-      destruct HP as (A & B & C & D & E & F & G). subst el.
+      destruct HP as (A & B & C & D & E & G & (k0 & G1 & G2 & G3)). subst el. unfold est in *.
       assert (Osub : OKt (tsub (ltr s) tts)) by okt.
       destruct (tsub_ok (ltr s) tts Hltr Ot) as [_ Hs1].
       destruct (tadd_ok (tsf s) (tsub (ltr s) tts) Htsf Osub) as [_ Hs2].
       unfold Stable, StableF in C. rewrite B in C. destruct C as (C1 & C2 & C3 & C4).
       unfold P3; simpl. repeat split; auto.
-      + eapply Forall_due_mono; [|exact C4]. lia.
+      + eapply Forall_due_mono; [|exact G1]. lia.
       + destruct D as (i2 & rest & D). rewrite D in C3. simpl in C3. lia.
     - (* R3 *) destruct Hpcok as (Ofd & Ond & Ot).
       destruct HP as (A & B & (i2 & rest & C) & D & E & F).
@@ -160,7 +162,7 @@ Section Never.
       rewrite (set_timer_pos _ s OL) by lia. split; auto.
       assert (Hi2 : i2 <> id).
       { rewrite C in Hnd. simpl in Hnd. inversion Hnd; subst. simpl in *. intuition. }
-      unfold P3, StableF; simpl. rewrite B, C.
+      unfold P3, StableF, Kp; simpl. rewrite B, C.
       rewrite erase_cons_same, erase_cons_other by auto.
       repeat split; auto; try discriminate; try lia.
       + simpl. lia.
@@ -177,30 +179,32 @@ Section Never.
     - (* D4 *) split; auto; unfold P3, Stable, StableF, Cr in *; simpl; tauto.
   Qed.
 
-  Lemma tick_p3 s us : P3 s -> 0 < us -> (rem s = 0 \/ us < rem s) ->
-    P3 (if rem s =? 0 then set_now (now s + us) s else set_now (now s + us) (set_rem (rem s - us) s)).
+  (* P3 only looks at the environment through StableF / GetF: it survives any change of (now, rem) that moves
+     time forward, keeps the timer armed iff it was, and does not lower the offset Kp. *)
+  Definition env_ok (s : st) (nw' rm' : Z) : Prop :=
+    now s <= nw' /\ (rem s = 0 -> rm' = 0) /\ (0 < rem s -> 0 < rm') /\
+    Kp (now s) (rem s) (tsf s) (ltr s) <= Kp nw' rm' (tsf s) (ltr s).
+
+  Lemma env_p3 s s' : P3 s -> env_ok s (now s') (rem s') ->
+    pc s' = pc s -> incs s' = incs s -> running s' = running s -> pending s' = pending s -> tsf s' = tsf s ->
+    ltr s' = ltr s -> created s' = created s -> P3 s'.
   Proof.
-    intros HP Hus Hr. unfold P3 in *.
-    destruct (rem s =? 0) eqn:Ez; [apply Z.eqb_eq in Ez | apply Z.eqb_neq in Ez; destruct Hr as [Hr|Hr]; [lia|]].
-    - (* timer not armed: only `now` grows *)
-      assert (St : forall run p ts lt cr, StableF run p (rem s) ts lt (now s) cr -> StableF run p (rem s) ts lt (now s + us) cr).
-      { intros. rewrite Ez in *. apply StableF_idle_tick; auto. }
-      simpl; destruct (pc s) eqn:Hpc; unfold Stable, Cr in *; simpl;
-        repeat match goal with H : _ /\ _ |- _ => destruct H end;
-        repeat split; auto; try lia;
-        try solve [match goal with H : exists t0, _ |- exists t0, _ => destruct H as (t0 & ? & ?); exists t0; split; auto; lia end];
-        try solve [eapply Forall_due_mono; [|eassumption]; lia];
-        try solve [eapply due_ok_mono; [|eassumption]; lia];
-        try solve [match goal with H : StableF true _ _ _ _ _ _ |- _ => apply St in H; unfold StableF in H; simpl in H; intuition end].
-    - assert (St : forall run p ts lt cr, StableF run p (rem s) ts lt (now s) cr -> StableF run p (rem s - us) ts lt (now s + us) cr).
-      { intros. apply StableF_tick; auto. }
-      simpl; destruct (pc s) eqn:Hpc; unfold Stable, Cr in *; simpl;
-        repeat match goal with H : _ /\ _ |- _ => destruct H end;
-        repeat split; auto; try lia;
-        try solve [match goal with H : exists t0, _ |- exists t0, _ => destruct H as (t0 & ? & ?); exists t0; split; auto; lia end];
-        try solve [eapply Forall_due_mono; [|eassumption]; lia];
-        try solve [eapply due_ok_mono; [|eassumption]; lia];
-        try solve [match goal with H : StableF true _ _ _ _ _ _ |- _ => apply St in H; unfold StableF in H; simpl in H; intuition end].
+    intros HP (E1 & E2 & E3 & E4) Fpc Fcs Frun Fp Fts Flt Fcr. unfold P3 in *. rewrite Fpc.
+    assert (St : forall run p cr, StableF run p (rem s) (tsf s) (ltr s) (now s) cr ->
+                                  StableF run p (rem s') (tsf s) (ltr s) (now s') cr).
+    { intros. eapply StableF_env; eauto. }
+    destruct (pc s) eqn:Hpc; unfold Stable, Cr, GetF in *; rewrite ?Fcs, ?Frun, ?Fp, ?Fts, ?Flt, ?Fcr;
+      repeat match goal with H : _ /\ _ |- _ => destruct H end;
+      repeat match goal with H : exists _, _ |- _ => destruct H end;
+      repeat match goal with H : _ /\ _ |- _ => destruct H end;
+      repeat split; auto; try lia;
+      try solve [eexists; split; [eassumption|lia]];
+      try solve [eapply Forall_due_mono; [|eassumption]; lia];
+      try solve [eapply due_ok_mono; [|eassumption]; lia];
+      try solve [do 2 eexists; repeat split; try eassumption; lia];
+      try solve [eexists; repeat split; try eassumption; lia];
+      try solve [match goal with H : due_ok _ (Kp _ _ _ _) _ |- _ => eapply due_ok_mono; [|exact H]; lia end];
+      try solve [match goal with H : StableF true _ _ _ _ _ _ |- _ => apply St in H; unfold StableF in H; intuition end].
   Qed.
 End Never.
 
@@ -225,12 +229,9 @@ Section Never2.
   Variable c : cmp.
   Hypothesis Hc : cmp_ok c.
 
-  Definition fire_ok (e : event) (s : st) : bool :=
-    match e with Fire => negb (incs s && (0 <? rem s)) | _ => true end.
-
-  Lemma inv3_event e s : inv1 s -> inv2 s -> inv3 s -> fire_ok e s = true -> inv3 (do_event c e s).
+  Lemma inv3_event e s : inv1 s -> inv2 s -> inv3 s -> inv3 (do_event c e s).
   Proof.
-    intros I1 I2 [Herr HP HL [HC1 HC2]] Hf. unfold do_event. rewrite Herr.
+    intros I1 I2 [Herr HP HL [HC1 HC2]]. unfold do_event. rewrite Herr.
     destruct e.
     - (* Create *)
       destruct (is_idle (pc s) && (0 <? csecs)) eqn:E; [|constructor; auto; split; auto].
@@ -262,14 +263,23 @@ Section Never2.
     - (* Tick *)
       destruct (0 <? us) eqn:E1; [|constructor; auto; split; auto]. apply Z.ltb_lt in E1.
       destruct (rem s =? 0) eqn:E2.
-      + pose proof (tick_p3 s us HP E1) as T. rewrite E2 in T. apply Z.eqb_eq in E2.
-        constructor; [exact Herr | apply T; auto | exact HL | split; auto].
-      + destruct (us <? rem s) eqn:E3; [|constructor; auto; split; auto]. apply Z.ltb_lt in E3.
-        pose proof (tick_p3 s us HP E1) as T. rewrite E2 in T.
-        constructor; [exact Herr | apply T; auto | exact HL | split; auto].
+      + apply Z.eqb_eq in E2.
+        constructor; [exact Herr | | exact HL | split; auto].
+        apply (env_p3 s); auto. unfold env_ok, Kp; simpl. repeat split; lia.
+      + apply Z.eqb_neq in E2.
+        destruct (us <? rem s) eqn:E3; [|constructor; auto; split; auto]. apply Z.ltb_lt in E3.
+        constructor; [exact Herr | | exact HL | split; auto].
+        apply (env_p3 s); auto. unfold env_ok, Kp; simpl. repeat split; lia.
     - (* Fire *)
       destruct (0 <? rem s) eqn:E; [|constructor; auto; split; auto].
-      simpl in Hf. rewrite E, andb_true_r in Hf. apply negb_true_iff in Hf. apply Z.ltb_lt in E.
+      apply Z.ltb_lt in E.
+      destruct (incs s) eqn:Hf.
+      { (* inside a critical section: the retry shot is armed, nothing else changes *)
+        unfold handle_timeout. simpl. rewrite Hf.
+        destruct reschedule_ok as [Ro Rp].
+        unfold set_timer. rewrite (is_zero_false _ Ro Rp).
+        constructor; simpl; [exact Herr | | exact HL | split; auto].
+        apply (env_p3 s); auto. unfold env_ok, Kp; simpl. repeat split; lia. }
       assert (Hst : Stable s /\ (forall id d, pc s = C1 id d -> Cr s id d (now s) /\ 0 < to_us d) /\
                     (match pc s with Idle | C1 _ _ | C4 _ | D1 _ | D4 _ => True | _ => False end)).
       { unfold P3 in HP. destruct (pc s) eqn:Hpc; try (destruct HP as [X _]; congruence).
@@ -285,10 +295,9 @@ Section Never2.
       + unfold CrOK. rewrite G, H. split; auto.
   Qed.
 
-  Lemma inv3_run evs s : inv1 s -> inv2 s -> inv3 s -> no_cs_fire c evs s = true -> inv3 (run c evs s).
+  Lemma inv3_run evs s : inv1 s -> inv2 s -> inv3 s -> inv3 (run c evs s).
   Proof.
-    revert s. induction evs as [|e evs IH]; simpl; intros s I1 I2 I3 H; auto.
-    apply andb_true_iff in H as [H1 H2].
+    revert s. induction evs as [|e evs IH]; simpl; intros s I1 I2 I3; auto.
     apply IH; auto.
     - apply inv1_event; auto.
     - apply inv2_event; auto. apply Hc.
@@ -303,29 +312,36 @@ Section Never2.
     - split; simpl; [constructor | tauto].
   Qed.
 
-  Theorem never_early_c evs : no_cs_fire c evs init = true -> ~ Early (run c evs init).
+  Theorem never_early_c evs : ~ Early (run c evs init).
   Proof.
-    intros H (id & t & d & t0 & dl & A & B & C).
-    destruct (inv3_run evs init inv1_init inv2_init inv3_init H) as [_ _ HL [HC1 _]].
+    intros (id & t & d & t0 & dl & A & B & C).
+    destruct (inv3_run evs init inv1_init inv2_init inv3_init) as [_ _ HL [HC1 _]].
     destruct (HL id t d A) as (t0' & dl' & X & Y).
     pose proof (NoDup_fst_unique _ _ _ _ HC1 B X) as E. inversion E; subst. lia.
   Qed.
 End Never2.
 
-(* Which statement holds of the source's comparisons, decided from the regenerated facts. *)
+(* With the reschedule fix in the model: never_early for the source's comparisons on EVERY schedule (no hypothesis about
+   expiries inside critical sections), given that the regenerated facts say the comparisons are the intended ones. *)
+Theorem never_early_src_unconditional : src_cmp_intended = true -> forall evs, ~ Early (run cmp_src evs init).
+Proof. intros E. rewrite (src_cmp_intended_eq E). apply never_early_c, cmp_int_ok. Qed.
+
+(* The statement that applies to the source's comparisons, decided from the regenerated facts on every run: they are
+   the intended ones (today) and never_early holds on every schedule; or they are not, and -- for the one-token slip
+   that was once in Time::operator== -- there is a schedule on which a handler runs early (witness_eq), so that a
+   re-introduction does not merely break a proof but comes with its failing input. *)
 Lemma never_early_src_status :
   if src_cmp_intended
-  then forall evs, no_cs_fire cmp_src evs init = true -> ~ Early (run cmp_src evs init)
-  else exists evs, no_cs_fire cmp_src evs init = true /\ Early (run cmp_src evs init).
+  then forall evs, ~ Early (run cmp_src evs init)
+  else exists evs, Early (run cmp_src evs init).
 Proof.
   destruct src_cmp_intended eqn:E.
-  - rewrite (src_cmp_intended_eq E). apply never_early_c, cmp_int_ok.
+  - apply never_early_src_unconditional. exact E.
   - first [ exfalso; vm_compute in E; discriminate
-          | exists witness_eq; split; [vm_compute; reflexivity | apply early_b_sound; vm_compute; reflexivity] ].
+          | exists witness_eq; apply early_b_sound; vm_compute; reflexivity ].
 Qed.
 
-(* The hypotheses of never_early are satisfiable, non-vacuously: the intended comparisons, a schedule without expiry in
-   a critical section on which a handler does run. *)
-Example never_early_hyps_satisfiable :
-  cmp_ok cmp_int /\ no_cs_fire cmp_int witness_eq init = true /\ lids (run cmp_int witness_eq init) = [0%nat].
+(* never_early is not vacuous: a schedule with an expiry inside a critical section on which handlers do run. *)
+Example never_early_nonvacuous :
+  cmp_ok cmp_int /\ lids (run cmp_int witness_resched init) = [0%nat; 1%nat] /\ early_b (run cmp_int witness_resched init) = false.
 Proof. split; [apply cmp_int_ok|]. split; vm_compute; reflexivity. Qed.
